@@ -47,6 +47,13 @@ P.update({
          "Coq proof over the generated variable inventory + NewMnemonic determinism theorem + identity/statistics harness", "5 C07"),
 })
 
+P.update({
+ "C04": ("Theorems C04_seed, C04_salt_prefix, C04_length, C04_no_state: for every normaliser meeting the measured contract and ALL byte strings m, p whose NFKD forms have no run of more than 30 modifiers (xsafe), the model of MnemonicToSeed equals PBKDF2-HMAC-SHA512 (executable Gallina SHA-512/HMAC/PBKDF2 per FIPS 180-4, RFC 2104, RFC 8018) over NFKD(m) and \"mnemonic\"||NFKD(p) with the iteration count, key length, hash and prefix literals regenerated from the source; NFKD(\"mnemonic\"+p) = \"mnemonic\"||NFKD(p) also for passphrases starting with combining marks. Outside xsafe the statement is false of the real dependency: known finding F3 (witness replayed every run, KNOWN-FINDING line). Differential: implementation seed vs hashlib PBKDF2 over the (password, salt) derived with the Coq NFKD; key lengths around the 128-byte block; the Gallina crypto vs the Go libraries; a full 2048-iteration seed evaluated by the extraction; K stream for the contract.",
+         "Coq proof over an explicit library contract (all inputs in the stated domain) + differential correspondence; known finding outside the domain", "5 C04"),
+ "C11": ("Theorems C11_same_nfkd, C11_separators: equal NFKD forms of both components give equal seeds inside xsafe, for every normaliser meeting the contract; U+3000 vs U+0020 between list words in particular. Outside xsafe the real dependency violates it: known finding F3 (witness pair replayed every run). Differential: every list word in its other normal forms inside sentences, six equivalent separators, passphrases from compatibility/combining-heavy pools, equality of NFKD forms decided by the Coq NFKD.",
+         "Coq proof over an explicit library contract + differential correspondence on equivalent spellings; known finding outside the domain", "5 C11"),
+})
+
 NOT_YET = {}
 
 def main():
